@@ -19,6 +19,7 @@ pub open spec fn vec_fr_fits(s: Seq<u8>) -> bool { s.len() >= 8 && 8 + 32 * dec_
 //@end
 
 //@fn rln/src/utils.rs bytes_le_to_vec_fr
+//@attr loop_isolation(false)
 //@tags C10 C13
 //@ret r
 //@subst `u64::from_le_bytes(` => `u64_from_le_bytes(`
